@@ -7,7 +7,7 @@ import gc
 import json
 import threading
 
-from simkit import mon, rng as rngm, spec, universe as U
+from simkit import corpus, mon, rng as rngm, spec, universe as U
 
 KINDS = ['preempt', 'user_abort', 'reenter', 'scramble', 'gc', 'name_reuse', 'ctor_fail', 'compile', 'postprocess']
 
@@ -111,6 +111,15 @@ def mod_name(i):
     return (U.PREFIX + 'p.g%d' % i) if _DOTTED[0] else (U.PREFIX + 'g%d' % i)
 
 
+def corpus_member(r, id, named):
+    """One of the repository's own grammars, chosen by r; None when its file no longer has the expected shape."""
+    which = r.choice(sorted(corpus.MEMBERS))
+    try:
+        return corpus.CorpusModule(id, which, mod_name(id) if named else None)
+    except Exception:
+        return None
+
+
 def gen_universe(r):
     infos = []
     _DOTTED[0] = r.random() < 0.15
@@ -128,10 +137,16 @@ def gen_universe(r):
         m0 = ModInfo(0, mod_name(0) if named0 else None, None, s0, g0)
         m0.fixed_texts = fixed
     else:
-        s0, g0 = spec.gen_root(r, named0)
-        m0 = ModInfo(0, mod_name(0) if named0 else None, None, s0, g0)
+        m0 = None
+        if x0 < 0.42:
+            # one of the repository's own grammars (Excel, Salesforce, JSON, indentation, matching tags)
+            m0 = corpus_member(r, 0, named0)
+        if m0 is None:
+            s0, g0 = spec.gen_root(r, named0)
+            m0 = ModInfo(0, mod_name(0) if named0 else None, None, s0, g0)
     infos.append(m0)
-    if named0 and not m0.binary and r.random() < 0.55:
+    if named0 and not m0.binary and m0.gen is not None and r.random() < 0.55:
+        g0 = m0.gen
         s1, g1 = spec.gen_child(r, g0, ignore=r.choice([None, None, None, 'named']))
         m1 = ModInfo(1, mod_name(1), 0, s1, g1, parent=m0)
         infos.append(m1)
@@ -170,6 +185,12 @@ def gen_universe(r):
 
 def entry_text(r, m, it):
     """A derivation from one rule of the module (for calls through that rule's own entry point)."""
+    et = getattr(m, 'entry_texts', None)
+    if et is not None:
+        t = r.choice(et.get(it['name']) or m.texts)
+        if r.random() < 0.3:
+            t = spec.mutate_text(r, t, m.alphabet)
+        return t
     sm = spec.Sampler(r, m.rules, m.super_rules)
     sm.budget = 600
     sm.maxdepth = r.choice([2, 3, 4])
@@ -409,7 +430,7 @@ class Planner:
             return False
         usable = [m for m in self.infos.values() if m.name and not stale(m)
                   and getattr(m, 'owner', client_names) == client_names]
-        parents = [m for m in usable if not (names_of(m) & forbidden_names)]
+        parents = [m for m in usable if not (names_of(m) & forbidden_names) and m.gen is not None]
         victims = [m for m in usable if m.name not in forbidden_names and m.parent is None]
         named_roots = parents
         choice = r.random()
